@@ -1984,3 +1984,106 @@ fn if_verifiable_headers_are_same(lhs: &VerifiableHeader, rhs: &VerifiableHeader
                     .as_slice()))
         && lhs.total_difficulty() == rhs.total_difficulty()
 }
+
+/// Read-only dump of private bookkeeping for the verification harness
+/// (compiled only with `--cfg ckb_light_client_verif`).
+#[cfg(ckb_light_client_verif)]
+#[derive(Default, Debug, Clone)]
+pub(crate) struct VerifPeerDump {
+    pub(crate) blocks_proof_request: Option<(Byte32, Vec<H256>, u64, bool)>,
+    pub(crate) blocks_request: Option<(Vec<(H256, bool)>, u64)>,
+    pub(crate) txs_proof_request: Option<(Byte32, Vec<H256>, u64)>,
+    pub(crate) check_points: (u32, Vec<packed::Byte32>),
+    pub(crate) latest_block_filter_hashes: (BlockNumber, Vec<packed::Byte32>),
+}
+
+#[cfg(ckb_light_client_verif)]
+#[derive(Default, Debug, Clone)]
+pub(crate) struct VerifDump {
+    pub(crate) peers: Vec<(PeerIndex, VerifPeerDump)>,
+    // hash, added_ts, first_sent, timeout, missing
+    pub(crate) fetching_headers: Vec<(Byte32, u64, u64, bool, bool)>,
+    pub(crate) fetching_txs: Vec<(Byte32, u64, u64, bool, bool)>,
+    // hash, proved, downloaded
+    pub(crate) matched_blocks: Option<Vec<(H256, bool, bool)>>,
+    pub(crate) cached_block_filter_hashes: (u32, Vec<packed::Byte32>),
+}
+
+#[cfg(ckb_light_client_verif)]
+impl Peers {
+    /// `matched_blocks` is `None` if the lock is currently held by a writer.
+    pub(crate) fn verif_dump(&self) -> VerifDump {
+        let mut peers = self
+            .inner
+            .iter()
+            .map(|item| {
+                let peer = item.value();
+                let dump = VerifPeerDump {
+                    blocks_proof_request: peer.blocks_proof_request.as_ref().map(|r| {
+                        (
+                            r.last_hash(),
+                            r.block_hashes(),
+                            r.when_sent,
+                            r.should_get_blocks,
+                        )
+                    }),
+                    blocks_request: peer.blocks_request.as_ref().map(|r| {
+                        let mut hashes = r
+                            .hashes
+                            .iter()
+                            .map(|(k, v)| (k.clone(), *v))
+                            .collect::<Vec<_>>();
+                        hashes.sort();
+                        (hashes, r.when_sent)
+                    }),
+                    txs_proof_request: peer
+                        .txs_proof_request
+                        .as_ref()
+                        .map(|r| (r.last_hash(), r.tx_hashes(), r.when_sent)),
+                    check_points: (
+                        peer.check_points.index_of_first_check_point,
+                        peer.check_points.inner.clone(),
+                    ),
+                    latest_block_filter_hashes: (
+                        peer.latest_block_filter_hashes.check_point_number,
+                        peer.latest_block_filter_hashes.inner.clone(),
+                    ),
+                };
+                (*item.key(), dump)
+            })
+            .collect::<Vec<_>>();
+        peers.sort_by_key(|(index, _)| *index);
+        let dump_fetching = |map: &DashMap<Byte32, FetchInfo>| {
+            let mut list = map
+                .iter()
+                .map(|item| {
+                    let info = item.value();
+                    (
+                        item.key().clone(),
+                        info.added_ts,
+                        info.first_sent,
+                        info.timeout,
+                        info.missing,
+                    )
+                })
+                .collect::<Vec<_>>();
+            list.sort_by(|a, b| a.0.as_slice().cmp(b.0.as_slice()));
+            list
+        };
+        let matched_blocks = self.matched_blocks.try_read().ok().map(|map| {
+            let mut list = map
+                .iter()
+                .map(|(k, (proved, block))| (k.clone(), *proved, block.is_some()))
+                .collect::<Vec<_>>();
+            list.sort();
+            list
+        });
+        VerifDump {
+            peers,
+            fetching_headers: dump_fetching(&self.fetching_headers),
+            fetching_txs: dump_fetching(&self.fetching_txs),
+            matched_blocks,
+            cached_block_filter_hashes: self.get_cached_block_filter_hashes(),
+        }
+    }
+}
